@@ -200,21 +200,23 @@ theorem encTrun_decTrun {bs : Bytes} {x : Trun} (h : decTrun bs = some x) :
 /-! ### saiz -/
 theorem decSaiz'_encSaiz (x : Saiz) (rest : Bytes) (h : x.Wf) :
     decSaiz' (encSaiz x ++ rest) = some (x, rest) := by
+  obtain ⟨version, flags, ait, aitp, dflt, count, sizes⟩ := x
   obtain ⟨h1, h2, h3, h4, h5, h6, h7, h8⟩ := h
-  have hm := decMany_encMany encU8 decU8 x.sample_info_sizes rest
-    (fun a ha r => decU8_encU8 a r (h8 a ha))
-  by_cases hd : x.default_sample_info_size = 0
-  · simp only [hd, if_true] at h7
-    have hc : x.sample_info_sizes.length < 4294967296 := by omega
-    simp [decSaiz', encSaiz, hd, List.append_assoc, decU8_encU8 _ _ h1, decU24_encU24 _ _ h2,
-      decOpt_encOpt_u32 _ _ _ h3, decOpt_encOpt_u32 _ _ _ h4, decU32_encU32 _ _ hc, hm]
-    have h0 : (0 : Nat) < 256 := by decide
-    simp [decU8_encU8 _ _ h0, decU32_encU32 _ _ hc, hm]
-    cases x; simp_all
+  simp only at h1 h2 h3 h4 h5 h6 h7 h8
+  have hm := decMany_encMany encU8 decU8 sizes rest (fun a ha r => decU8_encU8 a r (h8 a ha))
+  by_cases hd : dflt = 0
+  · subst hd
+    simp only [if_true] at h7
+    subst h7
+    simp only [decSaiz', encSaiz, if_true, List.append_assoc, Option.bind_eq_bind,
+      decU8_encU8 _ _ h1, decU24_encU24 _ _ h2, decOpt_encOpt_u32 _ _ _ h3,
+      decOpt_encOpt_u32 _ _ _ h4, decU8_encU8 _ _ h5, decU32_encU32 _ _ h6, hm, Option.bind_some]
   · simp only [hd, if_false] at h7
-    simp [decSaiz', encSaiz, hd, List.append_assoc, decU8_encU8 _ _ h1, decU24_encU24 _ _ h2,
-      decOpt_encOpt_u32 _ _ _ h3, decOpt_encOpt_u32 _ _ _ h4, decU8_encU8 _ _ h5,
-      decU32_encU32 _ _ h6, decMany, h7]
+    subst h7
+    simp only [decSaiz', encSaiz, hd, if_false, List.append_assoc, Option.bind_eq_bind,
+      decU8_encU8 _ _ h1, decU24_encU24 _ _ h2, decOpt_encOpt_u32 _ _ _ h3,
+      decOpt_encOpt_u32 _ _ _ h4, decU8_encU8 _ _ h5, decU32_encU32 _ _ h6, decMany,
+      Option.bind_some, List.nil_append]
 
 theorem decSaiz'_spec {bs : Bytes} {x : Saiz} {rest : Bytes} (h : decSaiz' bs = some (x, rest)) :
     x.Wf ∧ encSaiz x ++ rest = bs := by
@@ -227,11 +229,12 @@ theorem decSaiz'_spec {bs : Bytes} {x : Saiz} {rest : Bytes} (h : decSaiz' bs = 
   obtain ⟨h7a, h7b, h7c⟩ := decMany_spec encU8 decU8 (fun s => s < 256)
     (fun bs a r h => ⟨decU8_range h, encU8_decU8 h⟩) h7
   by_cases hd : d = 0
-  · simp only [hd, if_true] at h7a
+  · subst hd
+    simp only [if_true] at h7a
     refine ⟨⟨decU8_range h1, decU24_range h2, h3a, h4a, decU8_range h5, decU32_range h6,
-      by simp [hd, h7a], h7b⟩, ?_⟩
-    simp only [encSaiz, hd, if_true, List.append_assoc, h7a]
-    rw [h7c, encU32_decU32 h6, ← hd, encU8_decU8 h5, h4b, h3b, encU24_decU24 h2, encU8_decU8 h1]
+      by simp [h7a], h7b⟩, ?_⟩
+    simp only [encSaiz, if_true, List.append_assoc, h7a]
+    rw [h7c, encU32_decU32 h6, encU8_decU8 h5, h4b, h3b, encU24_decU24 h2, encU8_decU8 h1]
   · simp only [hd, if_false] at h7a
     have hss : ss = [] := List.length_eq_zero_iff.mp h7a
     subst hss
@@ -239,7 +242,7 @@ theorem decSaiz'_spec {bs : Bytes} {x : Saiz} {rest : Bytes} (h : decSaiz' bs = 
     subst h7c
     refine ⟨⟨decU8_range h1, decU24_range h2, h3a, h4a, decU8_range h5, decU32_range h6,
       by simp [hd], h7b⟩, ?_⟩
-    simp only [encSaiz, hd, if_false, List.append_assoc, List.nil_append]
+    simp only [encSaiz, hd, if_false, List.append_assoc, List.append_nil]
     rw [encU32_decU32 h6, encU8_decU8 h5, h4b, h3b, encU24_decU24 h2, encU8_decU8 h1]
 
 theorem decSaiz_encSaiz (x : Saiz) (h : x.Wf) : decSaiz (encSaiz x) = some x :=
@@ -269,7 +272,7 @@ theorem decSaio'_spec {bs : Bytes} {x : Saio} {rest : Bytes} (h : decSaio' bs = 
   obtain ⟨h6a, h6b, h6c⟩ := decMany_spec (encW (v != 0)) (decW (v != 0))
     (fun o => o < wBound (v != 0)) (fun bs a r h => decW_spec h) h6
   have hn := decU32_range h5
-  refine ⟨⟨decU8_range h1, decU24_range h2, h3a, h4a, by omega, h6b⟩, ?_⟩
+  refine ⟨⟨decU8_range h1, decU24_range h2, h3a, h4a, by simp only [h6a]; exact hn, h6b⟩, ?_⟩
   simp only [encSaio, List.append_assoc, h6a]
   rw [h6c, encU32_decU32 h5, h4b, h3b, encU24_decU24 h2, encU8_decU8 h1]
 
